@@ -192,7 +192,7 @@ def plan(tier, seed):
             full["ref"] = rnd.choice(["none", "nearmiss"])
             rows.append(full)
         rows += list(gen.covering_rows(feats, 2, rnd, candidates=12))
-        extra = [gen.random_feat(rnd) for _ in range(250000)]
+        extra = [gen.random_feat(rnd) for _ in range(1000000)]
         for r in extra:
             if r["ref"] == "valid":
                 r["ref"] = "none"
